@@ -342,4 +342,25 @@ PROPS["C20"] = {
     "level_note": "_partial: real preemption and the memory model are runtime behaviour; covered by SC-for-DRF as an assumption and by the stress run.",
 }
 
+PROPS["C17"] = {
+    "drivers": [dict(MAIN, timeout=3000)],
+    "rule": "the real proxy (real upstream.NewProxy and httputil.ReverseProxy) in front of recording HTTP servers on loopback: 4 upstream sets "
+            "(nested and sibling prefixes, exact paths without trailing slash, rewrite rules with capture groups and query additions, static "
+            "upstreams, pass-host-header off) x raw-path proxying on/off x 37 paths (percent-encoded slashes, dots, spaces, plus signs, "
+            "semicolons, UTF-8 raw and encoded) x queries x methods GET/POST/PUT/DELETE with bodies up to 64 KiB (1 MiB in thorough) and "
+            "repeated / unusual headers, as an authenticated session; the upstream reached (or redirect / not found) is compared with the "
+            "model run on the order the sort actually produced; non-trivial = all",
+    "assumptions": ["gorilla/mux tries routes in registration order (first match wins) and Go's regexp are modelled; the regex oracle is a "
+                    "table computed with the standard library",
+                    "byte-faithful streaming of bodies and relay of the upstream response are httputil.ReverseProxy behaviour: exercised "
+                    "(oracles), not modelled"],
+    "trusted_base": ["independent best-match computation and faithfulness oracles in the driver; loopback HTTP servers"],
+    "level_text": "c17_route (for EVERY ordering the unstable sort may produce - any permutation satisfying the comparator - the first matching "
+                  "route is a matching upstream of greatest key: longest matching rewrite rule, else longest matching plain path), "
+                  "c17_comparator, c17_no_match, c17_plain_unique are proved on the Gallina model of sortByPathLongest and the route table; "
+                  "routing is compared with the real proxy and method / request-target / body / headers / response relay are checked by "
+                  "oracles on every run.",
+    "level_note": "_partial: the director's byte-for-byte request-target (URL.Opaque = RequestURI) and response relay are checked by oracles only.",
+}
+
 NOT_APPLICABLE = {}
